@@ -7,13 +7,13 @@ CLAIMS = {
  "C07": ("Structural necessary conditions of 'never io.EOF for data that fails its checksum', decided for every path of gzip.Reader.Read and zlib.reader.Read: EOF-capable returns are dominated by the equal edges of comparisons covering the whole trailer; the returned count is the inflater's; digest/size are updated with exactly the bytes handed out; EOFs inside a member are converted. Not decided: checksum strength, inflater correctness.",
          "go/ssa value flow + dominators are trusted to represent the source; std library calls are classified by callee, not analysed.",
          "SSA value-flow with branch-fact refinement, dominance over CFG edges, constant slice-bound tiling", "DESIGN.md 4/C07"),
- "C08": ("Member sequencing of gzip.Reader decided structurally: one source object shared by header parser, inflater and trailer reader; next header only after a verified trailer and only in multistream mode; single-member mode returns io.EOF without touching the source; digest/size restart. Exact stream-end positioning (the runtime part) is not decided here.",
+ "C08": ("Member sequencing of gzip.Reader decided structurally: one source object shared by header parser, inflater and trailer reader; next header only after a verified trailer and only in multistream mode; single-member mode returns io.EOF without touching the source; digest/size restart. Header and trailer bytes are taken from the (possibly tiny, caller-supplied) bufio.Reader only through capacity-independent calls (R08.3). Exact stream-end positioning (the runtime part) is not decided here.",
          "same trusted base as C07; depends on C05 for exact consumption.",
          "SSA access-path identity of the source field, dominating branch facts, barrier reachability", "DESIGN.md 4/C08"),
- "C01": ("Round-trip equality is NOT decided (a relation between runtime byte strings). Six encoder-side necessary conditions are decided for all inputs and both arms: table/constant agreement with the decoder and RFC 1951, code-length limits 15/7, every emitted token counted in the histogram on every path, block framing (alignment, end-of-block, final flag, empty-final-block shortcut only when nothing was accumulated), delegation discipline, and literal-from-current-offset consistency in the Go finder.",
+ "C01": ("Round-trip equality is NOT decided (a relation between runtime byte strings). Six encoder-side necessary conditions are decided for all inputs and both arms: table/constant agreement with the decoder and RFC 1951, code-length limits 15/7, every emitted token counted in the histogram on every path, block framing (alignment, end-of-block, final flag, empty-final-block shortcut only when nothing was accumulated), delegation discipline, and literal-from-current-offset consistency in the Go finder. Also: the Huffman generators decide a symbol's use on the full-width frequency (R01.7), and a byte encoder that appends the end-of-block code itself never returns early with everything consumed (R01.8, linear forms).",
          "RFC 1951 constants embedded in the checker are the oracle for tables; assembly finders are covered only through C18/C19 clauses.",
          "constant/table agreement from go/types, barrier reachability with loop targets, phi-pair consistency, dominating facts", "DESIGN.md 4/C01"),
- "C02": ("Decode equality is NOT decided. Decided: the precomputed fixed-Huffman lookup tables are validated exhaustively (4096 short + reachable long + 1024 distance entries) against RFC 1951 in the entry format the decode loops define; RFC base/extra tables; slack-constant relations the fast paths rely on; assembly layout agreement; boundary-test-before-store in the dynamic header parser; whole-table installation for fixed blocks; index-to-symbol mapping in all sibling table builders; builtin copy inside one buffer only under a comparison implying disjointness.",
+ "C02": ("Decode equality is NOT decided. Decided: the precomputed fixed-Huffman lookup tables are validated exhaustively (4096 short + reachable long + 1024 distance entries) against RFC 1951 in the entry format the decode loops define; RFC base/extra tables; slack-constant relations the fast paths rely on; assembly layout agreement; boundary-test-before-store in the dynamic header parser; whole-table installation for fixed blocks; index-to-symbol mapping in all sibling table builders; builtin copy inside one buffer only under a comparison implying disjointness. Also: every end-of-block handler decides the next phase by the final flag (R02.9, sibling agreement); stored blocks deduct what they wrote from litBlockLength before returning and report 'unfinished' only with phase = phaseLitBlock (R02.10); symbols of packed multi-symbol entries provably fit their bit fields below the large-code flag (R02.11, bounds from dominating comparisons).",
          "the entry format is the one read off decode.go / huffcode.go; RFC 1951 fixed code embedded in the checker.",
          "exhaustive enumeration of a finite constant table against an embedded reference decoder; constant relations; per-iteration barrier reachability", "DESIGN.md 4/C02"),
  "C04": ("Schedule independence is NOT decided. Decided: the rollback discipline that makes decoding restartable - end-of-input exits of the Go decode loop hand back a consistent unconsumed (bits,bitsLen,input) triple and an output position from before the symbol; bit-consuming header steps are followed by an end-of-input test before success; rollbacks clear the overflow carry; readHeader's staging edge restores state and accounts for the staged bytes; input is acquired non-destructively; header scratch counters are cleared on every parse attempt.",
@@ -37,10 +37,10 @@ CLAIMS = {
  "C09": ("Decides that the compression trigger and all state updates of Accumulate depend only on accumulated state (data is used only as copy source), that Write calls Accumulate only with bytes left and Compress only under the trigger, and that the trigger fires exactly at the bound of the copy (linear forms). Everything inside the compressors is not decided.",
          "same trusted base; clause is necessary, not sufficient, for byte-identical output across partitions.",
          "use-closure of the data parameter, control-dependence of the Compress call, dominating facts", "DESIGN.md 4/C09"),
- "C10": ("Block-framing discipline decided on every path of both accelerated compressors in both arms: alignment only under the final flag or inside stored-block writers, an end-of-block emission after every header, the order encode -> empty stored block -> destination write in Flush, constant flush/final flags, marker bytes and header bits, the empty final block only under the final flag, and a block always encoded when flush is requested. Bit-exact block contents are not decided.",
+ "C10": ("Block-framing discipline decided on every path of both accelerated compressors in both arms: alignment only under the final flag or inside stored-block writers, an end-of-block emission after every header, the order encode -> empty stored block -> destination write in Flush, constant flush/final flags, marker bytes and header bits, the empty final block only under the final flag, and a block always encoded when flush is requested. Bit-exact block contents are not decided. An encoder that writes the end-of-block code itself returns early only with at least one byte left (R10.8).",
          "encoders called in the loop emit the end-of-block code when they consume the last byte (checked only as 'contain litCode(256)').",
          "dominating-fact identity on the eos value, barrier reachability with provably-entered loops, constant operand tables", "DESIGN.md 4/C10"),
- "C11": ("Decides bounded demand on the source (Peek argument normal forms, no ReadFull in the inflater, fixed-size container reads) and that decoded data is delivered before errors/EOF (replay return behind the nothing-pending edge; EOF produced only when drained). Progress of the decode loops on partial input is not decided.",
+ "C11": ("Decides bounded demand on the source (Peek argument normal forms, no ReadFull in the inflater, fixed-size container reads) and that decoded data is delivered before errors/EOF (replay return behind the nothing-pending edge; EOF produced only when drained). No Peek that can wait is reachable in phase phaseStreamEnd (correlated-branch search over step and its callers, R11.3), and every path from a decode call to a return publishes writePos (R11.4). Progress of the decode loops on partial input is not decided.",
          "bufio.Reader.Peek(n) returns as soon as n bytes are buffered (std contract).",
          "linear normal forms of SSA integer expressions, dominating facts", "DESIGN.md 4/C11"),
  "C12": ("Reset completeness for the nine writer-side stateful types: every access path any function may write through a pointer to the object (field-effect summaries closed over resolved calls; assembly by confirmed write sets) is re-initialised by Reset on every success path, or is scratch (table with reasons), or a nil-guarded lazy init whose object Reset resets. Equality of reset values with constructor values is not decided.",
@@ -49,7 +49,7 @@ CLAIMS = {
  "C13": ("Reset completeness for decompressor/inflate, gzip.Reader, zlib.reader with the same machinery, plus: a Resetter that ignores its dictionary is only called with nil, and nested inflaters and the private read-ahead buffer are reset or replaced on every success path. Observability of stale table/history contents is C03's concern.",
          "same as C12.",
          "interprocedural field-effect summaries + barrier reachability; call-site argument check over type-flow-resolved invokes", "DESIGN.md 4/C13"),
- "C17": ("Sufficient condition for non-interference in Go code: no function that can run after initialisation writes memory reachable from a package variable; no reference into a package variable is stored in an instance or returned; no goroutines/sync; assembly stores never use a global base. Positive controls prove the zero-expected rules can fire. Equality of outputs under concurrency follows but is not checked.",
+ "C17": ("Sufficient condition for non-interference in Go code: no function that can run after initialisation writes memory reachable from a package variable; no reference into a package variable is stored in an instance or returned; no goroutines/sync; assembly stores never use a global base. A struct/array value containing slices, maps or pointers is never copied out of a package variable into an instance (shallow copy). Positive controls prove the zero-expected rules can fire. Equality of outputs under concurrency follows but is not checked.",
          "field-effect summaries are may-write over resolved callees; unresolved calls fail the check; std library internals trusted.",
          "interprocedural write-effect summaries rooted at globals, reference-flow check, census, assembly operand dataflow", "DESIGN.md 4/C17"),
  "C14": ("Error discipline of the three Writer types decided on all paths and both dispatch arms: destination errors are recorded in the sticky field, every destination call sits behind a sticky-nil test, no function below drops a destination error, no second destination call is reachable on a failure edge, and the staging index is reset after every successful hand-over. These are necessary for 'fails without touching the destination again'; buffer-bound safety and stream validity are not decided.",
